@@ -62,12 +62,12 @@ Plan_hist3 == <<{"convert", "via", "scale", "incompatible"}, {"convert", "scale"
 Plan_hist3q == <<{"convert", "via", "scale"}, {"scale", "container", "via"}, {"back", "container", "incompatible"}>>
 Plan_hist3t == <<{"convert", "via", "scale"}, {"scale", "convert", "via"}, {"back", "container", "incompatible"}>>
 Plan_hist2 == <<{"convert", "via", "scale"}, {"back", "container", "incompatible"}>>
-Plan_reg == <<{"dimensionality", "defunit", "unitless", "unitof"}>>
+Plan_reg == <<{"dimensionality", "defunit", "unitless", "unitof", "mixnum"}>>
 Plan_derived == <<{"derived", "roundtrip"}>>
 Plan_help3 == <<{"convert"}, {"scale"}, {"helper"}>>
 Plan_help2 == <<{"convert", "scale"}, {"helper", "unitof"}>>
 Plan_plain == <<{"plain", "incompatible"}>>
-Plan_bexp == <<{"bexp", "strip"}>>
+Plan_bexp == <<{"bexp", "strip", "mixnum"}>>
 Plan_inv2 == <<{"convert", "via", "scale", "incompatible", "dimensionality"},
                {"convert", "back", "scale", "container", "unitless", "defunit", "derived", "roundtrip", "helper", "unitof", "strip"}>>
 Plan_inv == <<{"convert", "via", "scale", "incompatible", "container", "dimensionality"},
